@@ -30,10 +30,10 @@ def fits : List (String × String) := [
   ("Tinker08", "self.lnsigma / np.log(10) > -0.2"),
   ("Tinker08", "self.lnsigma / np.log(10) > -0.6"),
   ("Tinker08", "self.z == 0.0"),
-  ("Tinker10", "self.beta <= 0.0"),
-  ("Tinker10", "self.eta - self.phi <= -0.5"),
-  ("Tinker10", "self.eta <= -0.5"),
-  ("Tinker10", "self.gamma <= 0.0"),
+  ("Tinker10", "self.beta > 0.0"),
+  ("Tinker10", "self.eta - self.phi > -0.5"),
+  ("Tinker10", "self.eta > -0.5"),
+  ("Tinker10", "self.gamma > 0.0"),
   ("Tinker10", "self.lnsigma / np.log(10) < 0.4"),
   ("Tinker10", "self.lnsigma / np.log(10) > -0.2"),
   ("Tinker10", "self.lnsigma / np.log(10) > -0.6"),
@@ -47,23 +47,23 @@ def fits : List (String × String) := [
   ("Watson_FoF", "self.lnsigma > -0.55")
 ]
 def massFunction : List (String × String) := [
+  ("MassFunction", "_1[-1] < 3.162277660168379e+16"),
   ("MassFunction", "dndm > 0.0"),
-  ("MassFunction", "dndm[-1] != 0.0"),
-  ("MassFunction", "m[-1] < 3.162277660168379e+16"),
+  ("MassFunction", "dndm[-1] == 0.0"),
   ("MassFunction", "self.nu.max() < 1.0"),
   ("MassFunction", "self.nu.min() > 1.0"),
-  ("MassFunction", "val <= 0.0"),
+  ("MassFunction", "val > 0.0"),
   ("MassFunction", "val > 10.0")
 ]
 def sample : List (String × String) := [
-  ("", "h.ngtm > 0.0"),
-  ("", "hist != 0.0"),
-  ("", "hist[-1] == 0.0"),
-  ("", "hist[0] == 0.0")
+  ("", "_1 == 0.0"),
+  ("", "_1.ngtm > 0.0"),
+  ("", "_1[-1] == 0.0"),
+  ("", "_1[0] == 0.0")
 ]
 def transferModels : List (String × String) := [
   ("CAMB", "self.cosmo.Tcmb0.value == 0.0"),
-  ("FromFile", "abs((lnT[i + 1] - lnT[i]) / (lnk[i + 1] - lnk[i])) < 0.0001")
+  ("FromFile", "abs((lnT[_1 + 1] - lnT[_1]) / (lnk[_1 + 1] - lnk[_1])) < 0.0001")
 ]
 def filters : List (String × String) := [
   ("SharpK", "kr == 1.0"),
@@ -73,7 +73,7 @@ def filters : List (String × String) := [
 ]
 def halofit : List (String × String) := [
   ("", "k > 0.005"),
-  ("", "np.abs(1 - omegamz) > 0.01")
+  ("", "np.abs(1 - _1) > 0.01")
 ]
 def transfer : List (String × String) := [
   ("Transfer", "self.lnk_max < 9.0"),
@@ -85,14 +85,14 @@ def transfer : List (String × String) := [
   ("Transfer", "val > 4.0")
 ]
 def wdm : List (String × String) := [
-  ("TransferWDM", "val <= 0.0")
+  ("TransferWDM", "val > 0.0")
 ]
 def mdef : List (String × String) := [
 
 ]
 def growth : List (String × String) := [
   ("CambGrowth", "self.cosmo.Tcmb0.value == 0.0"),
-  ("GenMFGrowth", "1 - self.cosmo.Ok0 != 1.0"),
+  ("GenMFGrowth", "1 - self.cosmo.Ok0 == 1.0"),
   ("GenMFGrowth", "1 - self.cosmo.Ok0 > 1.0"),
   ("GenMFGrowth", "np.abs(1 - self.cosmo.Ok0 - 1.0) > 1e-10"),
   ("GenMFGrowth", "self.cosmo.Ode0 > 0.0"),
